@@ -76,6 +76,7 @@ func init() {
 			x.Data["d"] = d
 			var cp plugin.ClientProtocol
 			var obj interface{}
+			var again func()
 			run("Start", true, func() error { _, err := lc.cl.Start(); return err })
 			run("Client", false, func() error { var err error; cp, err = lc.cl.Client(); return err })
 			if cp == nil {
@@ -125,26 +126,30 @@ func init() {
 				// brokered exchange host -> plugin (plugin accepts, host dials)
 				if p["proto"] == "netrpc" && lc.rp.sb != nil {
 					sb, cb := lc.rp.sb, lc.rp.cb
-					x.Go(lc.r.dom.Name, func() {
-						c, err := sb.Accept(31)
-						if err == nil {
-							io.Copy(c, c)
-						}
-					})
-					run("broker-dial", true, func() error {
-						c, err := cb.Dial(31)
-						if err != nil {
+					h2p := func(name string, id uint32) {
+						x.Go(lc.r.dom.Name, func() {
+							c, err := sb.Accept(id)
+							if err == nil {
+								io.Copy(c, c)
+							}
+						})
+						run(name, true, func() error {
+							c, err := cb.Dial(id)
+							if err != nil {
+								return err
+							}
+							defer c.Close()
+							c.SetDeadline(time.Now().Add(10 * time.Second))
+							if _, err := c.Write([]byte("x")); err != nil {
+								return err
+							}
+							var b [1]byte
+							_, err = io.ReadFull(c, b[:])
 							return err
-						}
-						defer c.Close()
-						c.SetDeadline(time.Now().Add(10 * time.Second))
-						if _, err := c.Write([]byte("x")); err != nil {
-							return err
-						}
-						var b [1]byte
-						_, err = io.ReadFull(c, b[:])
-						return err
-					})
+						})
+					}
+					h2p("broker-dial", 31)
+					again = func() { h2p("broker-dial2", 33) }
 					// plugin -> host (host accepts, plugin dials)
 					x.Go(lc.r.dom.Name, func() {
 						c, err := sb.Dial(32)
@@ -165,25 +170,29 @@ func init() {
 					})
 				} else if lc.gp != nil && lc.gp.sb != nil {
 					sb, cb := lc.gp.sb, lc.gp.cb
-					x.Go(lc.r.dom.Name, func() {
-						sb.AcceptAndServe(31, func(o []grpc.ServerOption) *grpc.Server {
-							s := grpc.NewServer(o...)
-							grpctest.RegisterPingPongServer(s, &ppServer{tag: "31"})
-							return s
+					h2p := func(name string, id uint32) {
+						x.Go(lc.r.dom.Name, func() {
+							sb.AcceptAndServe(id, func(o []grpc.ServerOption) *grpc.Server {
+								s := grpc.NewServer(o...)
+								grpctest.RegisterPingPongServer(s, &ppServer{tag: fmt.Sprint(id)})
+								return s
+							})
 						})
-					})
-					run("broker-dial", true, func() error {
-						cc, err := cb.Dial(31)
-						if err != nil {
+						run(name, true, func() error {
+							cc, err := cb.Dial(id)
+							if err != nil {
+								return err
+							}
+							defer cc.Close()
+							x.OnCleanup(func() { cc.Close() })
+							ctx, cancel := context.WithTimeout(context.Background(), 8*time.Second)
+							defer cancel()
+							_, err = pingTag(ctx, cc)
 							return err
-						}
-						defer cc.Close()
-						x.OnCleanup(func() { cc.Close() })
-						ctx, cancel := context.WithTimeout(context.Background(), 8*time.Second)
-						defer cancel()
-						_, err = pingTag(ctx, cc)
-						return err
-					})
+						})
+					}
+					h2p("broker-dial", 31)
+					again = func() { h2p("broker-dial2", 33) }
 					// plugin -> host: the host accepts (tracked: it must return, with an error once the
 					// plugin is gone, because announcing the listener needs the broker stream), the plugin dials
 					// (with multiplexing Accept only registers a local listener: it does not need the plugin)
@@ -211,6 +220,10 @@ func init() {
 				_ = rpc.DefaultRPCPath
 			}
 			run("Ping", true, func() error { return cp.Ping() })
+			if again != nil {
+				// a second brokered exchange: a failed operation must not wedge the next one
+				again()
+			}
 			run("Kill", false, func() error { lc.cl.Kill(); return nil })
 			x.Data["completed"] = true
 		},
@@ -249,7 +262,7 @@ func init() {
 						from = crashAt
 					}
 					bound := 6 * time.Second
-					if o.name == "broker-dial" || o.name == "broker-accept" {
+					if o.name == "broker-dial" || o.name == "broker-dial2" || o.name == "broker-accept" {
 						bound = 14 * time.Second // 5 s broker wait + the exchange's own deadline
 					}
 					if o.end-from > bound {
